@@ -8,7 +8,7 @@
 //! - the MIT license [LICENSE-MIT](https://docs.rs/crate/zarrs_filesystem/latest/source/LICENCE-MIT) or <http://opensource.org/licenses/MIT>, at your option.
 
 use zarrs_storage::{
-    byte_range::{ByteOffset, ByteRange},
+    byte_range::{ByteOffset, ByteRange, InvalidByteRangeError},
     store_set_partial_values, Bytes, ListableStorageTraits, ReadableStorageTraits, StorageError,
     StoreKey, StoreKeyError, StoreKeyOffsetValue, StoreKeys, StoreKeysPrefixes, StorePrefix,
     StorePrefixes, WritableStorageTraits,
@@ -275,6 +275,14 @@ impl ReadableStorageTraits for FilesystemStore {
                 return Err(err.into());
             }
         };
+
+        // Reject byte ranges beyond the end of the value before seeking or allocating
+        let file_size = file.metadata()?.len();
+        for byte_range in byte_ranges {
+            if !byte_range.is_valid(file_size) {
+                return Err(InvalidByteRangeError::new(*byte_range, file_size).into());
+            }
+        }
 
         let mut out = Vec::with_capacity(byte_ranges.len());
         for byte_range in byte_ranges {
